@@ -14,7 +14,9 @@ CONSTANTS
   Ep = 0
   MaxRefresh = 1000
   MaxChanges = 1000
-INVARIANTS TraceTypeOK AllFutureSubscribed AggregatorRuleExact InfoPrefersAggregator InfoInForceComplete EveryAggregatorCommitteeScheduled NoAggregationForPastSlot
+  MaxHeld = 1000
+  SignerMayFail = TRUE
+INVARIANTS TraceTypeOK AllFutureSubscribed AggregatorRuleExact SubscriptionHistoryIndependent InfoPrefersAggregator InfoInForceComplete EveryAggregatorCommitteeScheduled NoAggregationForPastSlot
 CONSTRAINT HWM
 POSTCONDITION TraceAccepted
 CHECK_DEADLOCK FALSE
